@@ -1,4 +1,5 @@
 import SaoVerif.Proofs.Fixed2
+import SaoVerif.Proofs.Redelegate
 import SaoVerif.Properties.C17
 import SaoVerif.Properties.C08
 /-!
@@ -238,6 +239,15 @@ theorem undelegate_keepsStakePart (e : Env) (s : State) (g : Dec) (del : Addr) (
               simp only [stakePart] at hs2 ⊢
               simp_all
 
+theorem redelegate_keepsStakePart (e : Env) (s : State) (g : Dec) (del : Addr) (src dst : ValAddr) (amt : Int) :
+    keepsStakePart s (stakeRedelegate e s g del src dst amt) := by
+  unfold keepsStakePart
+  split
+  · rename_i s' hs
+    exact redelegate_keeps stakePart (fun e s s' g g' v a b h => verifySuper_stakePart e s s' g g' v a b h)
+      (fun s s' a b x h => send_stakePart s s' a b x h) (fun _ _ => rfl) e s g del src dst amt s' hs
+  · trivial
+
 /-! ### every operation -/
 /-- **C08, first sentence, for every operation and state**: the supply changes only in `begin` -/
 theorem C08_coins_are_created_only_by_the_begin_blocker (e : Env) (y : Sys) (op : Op) (hop : op ≠ .begin_) :
@@ -261,6 +271,11 @@ theorem C08_coins_are_created_only_by_the_begin_blocker (e : Env) (y : Sys) (op 
   case undelegate c v a =>
     simp only [step, stepBase, stakeStep]
     have := undelegate_keepsStakePart e y.st y.global c v a
+    unfold keepsStakePart at this
+    split <;> simp_all [stakePart]
+  case redelegate c v w a =>
+    simp only [step, stepBase, stakeStep]
+    have := redelegate_keepsStakePart e y.st y.global c v w a
     unfold keepsStakePart at this
     split <;> simp_all [stakePart]
   case payaddr m => exact did _ (Or.inl ⟨m, rfl⟩)
@@ -296,11 +311,16 @@ theorem C17_registry_changes_only_by_did_messages (e : Env) (y : Sys) (op : Op)
     have := undelegate_keepsStakePart e y.st y.global c v a
     unfold keepsStakePart at this
     split <;> simp_all [stakePart]
+  case redelegate c v w a =>
+    simp only [step, stepBase, stakeStep]
+    have := redelegate_keepsStakePart e y.st y.global c v w a
+    unfold keepsStakePart at this
+    split <;> simp_all [stakePart]
   all_goals (first | rfl | exact storage _ rfl)
 
 /-- **C20**: the staking view read by the super-node predicate changes only through the staking messages -/
 theorem C20_stakes_change_only_by_staking_messages (e : Env) (y : Sys) (op : Op)
-    (h1 : ∀ c v a, op ≠ .delegate c v a) (h2 : ∀ c v a, op ≠ .undelegate c v a) :
+    (h1 : ∀ c v a, op ≠ .delegate c v a) (h2 : ∀ c v a, op ≠ .undelegate c v a) (h2r : ∀ c v w a, op ≠ .redelegate c v w a) :
     (step e y op).2.st.staking = y.st.staking := by
   have storage : ∀ o, isStorageOp o = true → (stepC e y.st o).2.staking = y.st.staking := by
     intro o ho
@@ -314,6 +334,7 @@ theorem C20_stakes_change_only_by_staking_messages (e : Env) (y : Sys) (op : Op)
   cases op
   case delegate c v a => exact absurd rfl (h1 c v a)
   case undelegate c v a => exact absurd rfl (h2 c v a)
+  case redelegate c v w a => exact absurd rfl (h2r c v w a)
   case begin_ =>
     simp only [step, stepBase, stepC, blocker]
     split
@@ -349,6 +370,11 @@ theorem C01_parameters_never_change (e : Env) (y : Sys) (op : Op) : (step e y op
   case undelegate c v a =>
     simp only [step, stepBase, stakeStep]
     have := undelegate_keepsStakePart e y.st y.global c v a
+    unfold keepsStakePart at this
+    split <;> simp_all [stakePart]
+  case redelegate c v w a =>
+    simp only [step, stepBase, stakeStep]
+    have := redelegate_keepsStakePart e y.st y.global c v w a
     unfold keepsStakePart at this
     split <;> simp_all [stakePart]
   case payaddr m => exact did _ (Or.inl ⟨m, rfl⟩)
